@@ -28,6 +28,8 @@ def proj(o):
                       "grid": [list(g) if type(g) is list else [777] for g in o.child.grid]}, "tmp": o.tmp,
             "ro": 0 if ro is Undefined or ro == 0 else ro, "kids": kids_pattern(o),
             "wr": 0 if o.wr is None else 1 if o.wr is o.child else 2,
+            # byleaf: 0 empty | 1 its one key is the object's own child | 2 its key is some other Leaf
+            "bl": 0 if not o.byleaf else 1 if any(k is o.child for k in o.byleaf) else 2,
             "pvset": 1 if "pv" in d else 0, "pvval": (lambda x: x if type(x) is int else BAD)(d.get("pv", 0)),
             "hasx": 1 if "extra" in o._instance_traits() else 0,
             "xval": (lambda x: x if type(x) is int else BAD)(d.get("extra", 0))}
@@ -45,7 +47,7 @@ def kids_pattern(o):
 
 
 def containers(o, deep=True):
-    out = [o.xs, o.nested, o.dl, o.s, o.child, o.child.items, o.kids, o.child.grid] + list(o.kids)
+    out = [o.xs, o.nested, o.dl, o.s, o.child, o.child.items, o.kids, o.child.grid, o.byleaf] + list(o.kids) + list(o.byleaf)
     out += list(o.nested) + list(o.dl.values())
     if deep:
         out += list(o.child.grid)      # plain lists inside List(Any): shared by a shallow clone by design
@@ -127,6 +129,8 @@ def step(o, dyn, op, v):
             (o.cgrid if "cgrid" in o.trait_names() else o.child.grid).append([v])
         elif op == "grid_inner":
             o.child.grid[0].append(v)
+        elif op == "bl_child":
+            o.byleaf[o.child] = 1
         elif op == "wr_child":
             o.wr = o.child
         elif op == "wr_none":
@@ -154,7 +158,7 @@ def step(o, dyn, op, v):
 
 
 OPS = ["kids_child", "kids_new", "kids_dup", "n_assign", "n_assign", "tmp_assign", "ro_assign", "xs_append", "xs_append", "xs_assign", "nested_append", "nested_inner", "dl_set",
-       "dl_inner", "s_add", "child_value", "child_items", "grid_append", "grid_inner", "addx", "extra_assign", "pv_assign", "pv_assign", "pv_del", "wr_child", "wr_none"]
+       "dl_inner", "s_add", "child_value", "child_items", "grid_append", "grid_inner", "addx", "extra_assign", "pv_assign", "pv_assign", "pv_del", "wr_child", "wr_none", "bl_child"]
 
 
 def run_history(rnd, steps, t):
